@@ -101,6 +101,10 @@ func (k Keeper) RecvPacket(
 	if !found {
 		return errorsmod.Wrap(clienttypes.ErrClientNotFound, fromChain)
 	}
+	// only Active clients are allowed to process packets
+	if status := targetClient.Status(ctx, k.clientKeeper.ClientStore(ctx, fromChain), k.cdc); status != exported.Active {
+		return errorsmod.Wrapf(clienttypes.ErrClientNotActive, "client (%s) status is %s", fromChain, status)
+	}
 
 	commitment := types.CommitPacket(packet)
 	// verify that the counterparty did commit to sending this packet
@@ -274,6 +278,10 @@ func (k Keeper) AcknowledgePacket(
 	if !found {
 		return errorsmod.Wrap(clienttypes.ErrClientNotFound, fromChain)
 	}
+	// only Active clients are allowed to process packets
+	if status := clientState.Status(ctx, k.clientKeeper.ClientStore(ctx, fromChain), k.cdc); status != exported.Active {
+		return errorsmod.Wrapf(clienttypes.ErrClientNotActive, "client (%s) status is %s", fromChain, status)
+	}
 
 	ackCommitment := types.CommitAcknowledgement(acknowledgement)
 	if err := clientState.VerifyPacketAcknowledgement(ctx,
@@ -409,6 +417,10 @@ func (k Keeper) RecvCleanPacket(
 
 	if !found {
 		return errorsmod.Wrap(clienttypes.ErrClientNotFound, fromChain)
+	}
+	// only Active clients are allowed to process packets
+	if status := targetClient.Status(ctx, k.clientKeeper.ClientStore(ctx, fromChain), k.cdc); status != exported.Active {
+		return errorsmod.Wrapf(clienttypes.ErrClientNotActive, "client (%s) status is %s", fromChain, status)
 	}
 
 	if err := targetClient.VerifyPacketCleanCommitment(ctx,
